@@ -143,5 +143,17 @@ FUNCTIONS = {
         "ghost_ensures": ["implies(len(results) <= thresh, same(result, results))",
                           "implies(len(results) > thresh, len(result) == 0)",
                           "thresh == (threshold if threshold is not None else 5000)"],
+        # call protocol: the caller's limits reach the strategy that is run unchanged (max_results only truncates, the threshold is the effective cap)
+        "calls": {
+            "SubgraphSearchEngine._find_all_subgraph_mappings": [
+                "(arg_max_results is None) == (old(max_results) is None) and (arg_max_results is None or arg_max_results == old(max_results))", "arg_threshold == (old(threshold) if old(threshold) is not None else 5000)",
+                "same(arg_node_attrs, old(node_attrs)) and same(arg_edge_attrs, old(edge_attrs))"],
+            "SubgraphSearchEngine._find_component_aware_subgraph_mappings": [
+                "(arg_max_results is None) == (old(max_results) is None) and (arg_max_results is None or arg_max_results == old(max_results))", "arg_threshold == (old(threshold) if old(threshold) is not None else 5000)",
+                "arg_strict_cc_count == old(strict_cc_count)", "same(arg_node_attrs, old(node_attrs)) and same(arg_edge_attrs, old(edge_attrs))"],
+            "SubgraphSearchEngine._find_bt_subgraph_mappings": [
+                "(arg_max_results is None) == (old(max_results) is None) and (arg_max_results is None or arg_max_results == old(max_results))", "arg_threshold == (old(threshold) if old(threshold) is not None else 5000)",
+                "arg_strict_cc_count == old(strict_cc_count)", "same(arg_node_attrs, old(node_attrs)) and same(arg_edge_attrs, old(edge_attrs))"],
+        },
     },
 }
